@@ -40,7 +40,12 @@ fn main() {
     };
     let id: &'static str = Box::leak(args[1].clone().into_boxed_str());
     let ctx: &'static Ctx = Box::leak(Box::new(Ctx::new(id, tier)));
-    let code = match id {
+    let code = run_check(id, ctx);
+    std::process::exit(code);
+}
+
+fn dispatch(id: &str, ctx: &'static Ctx) -> i32 {
+    match id {
         "C01" => props::c01::run(ctx),
         "C02" => props::c02::run(ctx),
         "C03" => props::c03::run(ctx),
@@ -65,8 +70,25 @@ fn main() {
             eprintln!("unknown property {id}");
             2
         }
-    };
-    std::process::exit(code);
+    }
+}
+
+/// Run one check. A panic that escapes every per-case guard is a verdict if it was raised by library
+/// code (the check could not even finish exploring because the library panics on an explored input)
+/// and a machinery failure if it was raised by the harness.
+fn run_check(id: &'static str, ctx: &'static Ctx) -> i32 {
+    match guarded(|| dispatch(id, ctx)) {
+        Ok(code) => code,
+        Err(p) => {
+            if panic_in_harness(&p) {
+                engine_failure(&format!("the harness panicked: {p}"));
+            }
+            ctx.violation(u64::MAX - 1, "panic", &format!("the library panicked while check {id} was exploring (outside a per-case guard): {p}"), serde_json::json!({"kind": "whole-run", "tier": if ctx.tier == Tier::Thorough { "thorough" } else { "quick" }}));
+            let mut c = cov();
+            c.insert("aborted_by_library_panic".into(), serde_json::json!(true));
+            ctx.finish("exploration", c, vec![])
+        }
+    }
 }
 
 /// Re-execute one recorded violating case, twice, without any explorer.
@@ -76,6 +98,13 @@ fn replay_file(path: &str) -> i32 {
     let v: serde_json::Value = serde_json::from_str(&text).unwrap_or_else(|e| engine_failure(&format!("bad replay json: {e}")));
     let id = v["property"].as_str().unwrap_or_else(|| engine_failure("replay file without property")).to_string();
     let case = &v["case"];
+    if case["kind"] == "whole-run" {
+        // the recorded violation is a library panic outside any single case: re-run the check
+        let idl: &'static str = Box::leak(id.clone().into_boxed_str());
+        let tier = if case["tier"] == "thorough" { Tier::Thorough } else { Tier::Quick };
+        let ctx: &'static Ctx = Box::leak(Box::new(Ctx::new(idl, tier)));
+        return run_check(idl, ctx);
+    }
     let run = |case: &serde_json::Value| -> Result<String, String> {
         match id.as_str() {
             "C01" => props::c01::replay(case),
@@ -99,6 +128,13 @@ fn replay_file(path: &str) -> i32 {
             "C19" => props::c19::replay(case),
             "C20" => props::c20::replay(case),
             _ => engine_failure("unknown property in replay file"),
+        }
+    };
+    let run = |case: &serde_json::Value| -> Result<String, String> {
+        match guarded(|| run(case)) {
+            Ok(r) => r,
+            Err(p) if panic_in_harness(&p) => engine_failure(&format!("the harness panicked during replay: {p}")),
+            Err(p) => Err(format!("panic: the library panicked: {p}")),
         }
     };
     let a = run(case);
